@@ -429,6 +429,24 @@ pub fn for_each_case(part: &str, tier: Tier, mut f: impl FnMut(u64, Case) -> boo
                     }
                 }
             }
+            // escape sequences in every text-bearing position: each escape form at each of its boundary lengths
+            // (no digits … more digits than the form allows, closed and unclosed, values outside Unicode)
+            let mut escapes: Vec<String> = ["\\n", "\\t", "\\r", "\\0", "\\\\", "\\\"", "\\'", "\\q", "\\", "\\x", "\\x4", "\\x41", "\\x411", "\\xZZ", "\\xff", "\\u41", "\\u", "\\u{", "\\u{}", "\\u{D800}", "\\u{110000}", "\\u{FFFFFF}", "\\u{zz}", "\\b", "\\f", "\\{", "{{", "}}", "\\u{41", "\\U0001F422", "\\N{DASH}", "\\101"].iter().map(|s| s.to_string()).collect();
+            for k in 1..=10usize {
+                let digits = &"0001F42200"[..k];
+                escapes.push(format!("\\u{{{digits}}}"));
+                escapes.push(format!("\\u{{{digits}"));
+                escapes.push(format!("\\u{{{}}}", &"1234567890"[..k]));
+            }
+            for carrier in TEXT_CARRIERS {
+                for e in &escapes {
+                    for (pre, suf) in [("", ""), ("a", "b"), ("é", "\\")] {
+                        if !emit(Case::Src(carrier.replace('§', &format!("{pre}{e}{suf}")))) {
+                            return;
+                        }
+                    }
+                }
+            }
         }
         "programs" => {
             // well-formed programs of the relational core (the AP alphabet of C01, incl. joins of sub-pipelines
